@@ -87,8 +87,11 @@ pub fn run(cfg: &Cfg, rep: &mut Report) {
     let fl = |s: &str| Flags::from_str(s);
     let pats: Vec<(&str, Flags)> = vec![
         ("(a+)+b", fl("")), ("(?<=(\\w)\\1)x", fl("i")), ("(a|ab)(c|bcd)(d*)", fl("")), ("\\b\\w+\\b", fl("")), ("(?:(a)|b)*\\1", fl("")), ("[\\q{ab|a}]+", fl("v")), ("k+s", fl("iu")), ("(?=(a))\\1|é", fl("")), ("(x*)*y", fl("")), ("^(?:a{1,3}){2}$", fl("m")),
+        // classes that compile to the general bracket instruction (non-ASCII / inverted), looked up
+        // with different outcomes by different threads
+        ("[α-ω]+", fl("")), ("[^a-y]+", fl("")), ("\\P{Lu}{2,}", fl("u")), ("[é-ü]*[^é-ü]", fl("i")), ("(?<=[α-ω])[Α-Ω]|[^α-ωΑ-Ω ]+", fl("")),
     ];
-    let hays: Vec<String> = vec!["aaaaab".into(), "aabbxx AAx".into(), "abcd abcbcd".into(), "the quick brown fox".into(), "aab".into(), "ababa".into(), "KKs \u{212A}\u{17F}".into(), "aé".into(), "xxxxxxxxxx".into(), "aaa\naaaa".into(), "".into(), "ééé".into()];
+    let hays: Vec<String> = vec!["aaaaab".into(), "aabbxx AAx".into(), "abcd abcbcd".into(), "the quick brown fox".into(), "aab".into(), "ababa".into(), "KKs \u{212A}\u{17F}".into(), "aé".into(), "xxxxxxxxxx".into(), "aaa\naaaa".into(), "".into(), "ééé".into(), "αβγδεζηθικλμνξοπρστυφχψω".into(), "ΑΒΓΔΕΖΗΘΙΚΛΜΝΞΟΠΡΣΤΥΦΧΨΩ".into(), "αΒγΔεΖηΘ zZ éÉüÜ".into(), "zzzzzzzzzzzzzzzzzzzzzzzzzzzzzzzz".into()];
     let threads_list: Vec<usize> = if cfg.opt("small").is_some() { vec![2] } else { vec![2, 4, 16] };
     let n_queries = cfg.opt_usize("queries", if cfg.quick() { 400 } else { 4000 });
     let mut rng = Rng::new(cfg.seed ^ 0x19);
